@@ -7,6 +7,15 @@ namespace embedded_pairing::bls12_381 {
     template void Projective<Fq>::multiply_wnaf<G1Affine, core::BigInt<256>, 4u>(const G1Affine&, const core::BigInt<256>&);
     template void Projective<Fq>::multiply_wnaf<Projective<Fq>, core::BigInt<256>, 4u>(const Projective<Fq>&, const core::BigInt<256>&);
     template void Projective<Fq2>::multiply_wnaf<G2Affine, core::BigInt<256>, 4u>(const G2Affine&, const core::BigInt<256>&);
+    // cofactor-width routines and the entry points that select them (instantiated by the library only where a cofactor is cleared)
+    template void Projective<Fq>::multiply_wnaf<G1Affine, core::BigInt<128>, 4u>(const G1Affine&, const core::BigInt<128>&);
+    template void Projective<Fq>::multiply_wnaf<G1, core::BigInt<128>, 4u>(const G1&, const core::BigInt<128>&);
+    template void Projective<Fq2>::multiply_wnaf<G2Affine, core::BigInt<512>, 4u>(const G2Affine&, const core::BigInt<512>&);
+    template void Projective<Fq2>::multiply_wnaf<G2, core::BigInt<512>, 4u>(const G2&, const core::BigInt<512>&);
+    template void G1::multiply<G1Affine>(const G1Affine&, const core::BigInt<128>&);
+    template void G1::multiply<G1>(const G1&, const core::BigInt<128>&);
+    template void G2::multiply<G2Affine>(const G2Affine&, const core::BigInt<512>&);
+    template void G2::multiply<G2>(const G2&, const core::BigInt<512>&);
     template void Projective<Fq>::multiply_doubleadd<G1Affine, core::BigInt<256> >(const G1Affine&, const core::BigInt<256>&, int);
     template void Projective<Fq>::multiply_doubleadd<Projective<Fq>, core::BigInt<256> >(const Projective<Fq>&, const core::BigInt<256>&, int);
     template void Projective<Fq2>::multiply_doubleadd<G2Affine, core::BigInt<256> >(const G2Affine&, const core::BigInt<256>&, int);
